@@ -237,6 +237,9 @@ func checkReports(c *stepCtx, cur *jOutcomeView, reports []any) {
 type chainState struct {
 	last  map[uint32]uint64 // channel -> obsTs of its last report
 	pairs int
+	// rounds since the channel's last report in which no report came out while the outcome lacked an aggregate
+	// for one of the channel's streams (the report would have had a missing value: real codecs refuse it)
+	unencodable map[uint32][]uint64
 }
 
 func secondsRes(format uint32) bool { return format == 1 || format == 4 }
@@ -277,10 +280,50 @@ func checkChain(c *stepCtx, st *chainState, prev, cur *jOutcomeView, vc voteCoun
 			}
 			st.pairs++
 			if va != want {
-				c.bad("chain-broken", fmt.Sprintf("channel %d: report starts at %d but the previous report ended at %d", id, va, want))
+				lost := false
+				for _, t := range st.unencodable[id] {
+					if va == t || (c.version == 0 && va == t/1e9*1e9) {
+						lost = true
+					}
+				}
+				if lost {
+					// known finding F4: the validity start advanced over a round whose report could not be encoded
+					c.bad("window-lost-after-unencodable-report", fmt.Sprintf("channel %d: report starts at %d, the end of a round in which the channel was due but its report lacked a value and was not produced; the previous report ended at %d, so [%d, %d] is never reported", id, va, want, want, va))
+				} else {
+					c.bad("chain-broken", fmt.Sprintf("channel %d: report starts at %d but the previous report ended at %d", id, va, want))
+				}
 			}
 		}
 		st.last[id] = ts
+		delete(st.unencodable, id)
+	}
+	if st.unencodable == nil {
+		st.unencodable = map[uint32][]uint64{}
+	}
+	reported := map[uint32]bool{}
+	for _, r := range reports {
+		if m := jObj(r); jStr(m["kind"]) == "channel" {
+			reported[jU32(m["channel"])] = true
+		}
+	}
+	for id, d := range cur.defs {
+		if reported[id] {
+			continue
+		}
+		if _, ok := st.last[id]; !ok {
+			continue
+		}
+		for _, s := range jArr(jget(d, "streams")) {
+			if _, ok := cur.aggs[[2]uint32{jU32(jget(s, "sid")), jU32(jget(s, "agg"))}]; !ok {
+				st.unencodable[id] = append(st.unencodable[id], cur.ts)
+				break
+			}
+		}
+	}
+	for id := range st.unencodable {
+		if _, ok := st.last[id]; !ok {
+			delete(st.unencodable, id)
+		}
 	}
 }
 
